@@ -236,6 +236,18 @@ func C01(tier string) int {
 		o.Fault = "write"
 		ops2 = append(ops2, o)
 	}
+	// Served while reads of the store fail (all of them; for batches also: those of the first or the last entry's key only).
+	for _, o := range attSingles(0, []uint64{0, 1, 2}, false) {
+		if !o.Ents[0].ByKey {
+			o.Fault = "read"
+			ops2 = append(ops2, o)
+		}
+	}
+	for _, p := range [][2]uint64{{0, 1}, {1, 2}} {
+		for _, f := range []string{"read", "read-first", "read-last"} {
+			ops2 = append(ops2, SOp{Kind: "atts", Fault: f, Ents: []Ent{{Key: 0, S: p[0], T: p[1], Root: 2}, {Key: 1, S: p[0], T: p[1], Root: 2}}})
+		}
+	}
 	for k := 0; k < 2; k++ {
 		// Attestation data submitted to the generic batch endpoint under the attester domain type, beside an ordinary
 		// generic entry for the other key (in both orders): if that is ever signed it is an attestation like any other.
